@@ -11,7 +11,7 @@ import shutil
 import zlib
 
 from vlib import budget, harness
-from vlib.models import RefStream
+from vlib.models import RefStream, ShortReader
 
 _LB = None
 _CB = None
@@ -30,8 +30,8 @@ def shard_setup(tier):
 
 ID = "C13"
 LEVEL = "exploration"
-RULE = ("a case is (payload size/kind, class zlib|gzip, level 1..9, write chunking, four readers: joblib-written "
-        "BytesIO, joblib-written real file, stdlib-written stream, stdlib-written stream followed by trailing bytes) each driven by a seeded sequence of <= 40 "
+RULE = ("a case is (payload size/kind, class zlib|gzip, level 1..9, write chunking, five readers: joblib-written "
+        "BytesIO, joblib-written real file, stdlib-written stream, stdlib-written stream followed by trailing bytes, stdlib-written stream behind a raw file object doing short reads) each driven by a seeded sequence of <= 40 "
         "operations read(n)/read()/readinto/readline/tell/seek(whence 0,1,2); distinct_nontrivial counts distinct "
         "(payload, class, level, reader, operation-sequence) tuples in which at least one operation crossed "
         "an 8192-byte decompression block boundary or hit EOF")
@@ -154,6 +154,8 @@ def run_case(case, ctx):
         readers = [("joblib-bytesio", lambda: Cls(io.BytesIO(produced["bytesio"]), "rb")),
                    ("joblib-path", lambda: Cls(path, "rb")),
                    ("stdlib-bytesio", lambda: Cls(io.BytesIO(stdlib_comp), "rb")),
+                   # an underlying raw stream that delivers at most k bytes per read
+                   ("stdlib-short-reads", lambda: Cls(ShortReader(stdlib_comp + rng.choice([b"", b"", b"tail"]), max(rng.choice([1, 7, 4096, 8191]), len(stdlib_comp) // 5000 + 1)), "rb")),
                    # data after the end-of-stream marker is not part of the stream
                    ("stdlib-bytesio+trailing-bytes", lambda: Cls(io.BytesIO(stdlib_comp + rng.choice([b"\x00", b"junk", bytes(9000)])), "rb"))]
         for rname, opener in readers:
